@@ -1,13 +1,16 @@
 """C11: the numeric constants of C (6.4.4.1 / 6.4.4.2 plus the extensions the statement
 names) as families of inputs, with the match the lexer's patterns are expected to return.
 
-A family is: z3 string variables with constraints (the grammar of the constant), the input
-w = constant . rest where rest is empty or starts with an ASCII character that cannot
-continue a preprocessing number, and the *intended* match of one of the real patterns, given
-as the text of every piece of the matching shape (see relang/priority.py) and of every named
-group.  Nothing here is read from the code: the digit classes, the suffix spellings and the
-expected groups come from the C grammar and from the statement of the property."""
+A family is a sequence of *segments* (regular languages: the grammar of the constant, cut
+where the expected match has its piece boundaries), followed by `rest`: nothing, or text
+starting with an ASCII character that cannot continue a preprocessing number.  For every
+family the specification says which of the real patterns is applied, that it must not match
+(pieces None) or how many pieces of the matching shape each segment fills and which segments
+make up each named group.  Nothing here is read from the code: digit classes, suffix
+spellings and expected groups come from the C grammar and the statement of the property."""
 import z3
+
+from ..relang.priority import Segment
 
 S = z3.StringSort()
 RS = z3.ReSort(S)
@@ -21,6 +24,12 @@ def lits(*words):
     return U(*[z3.Re(w) for w in words])
 
 
+def cat(*rs):
+    rs = [z3.Re(r) if isinstance(r, str) else r for r in rs]
+    return rs[0] if len(rs) == 1 else z3.Concat(*rs)
+
+
+EPS = z3.Re("")
 D = z3.Range("0", "9")
 NZ = z3.Range("1", "9")
 OCT = z3.Range("0", "7")
@@ -28,6 +37,9 @@ BIN = z3.Range("0", "1")
 HEXD = U(D, z3.Range("a", "f"), z3.Range("A", "F"))
 HEX_NOT_E = U(D, z3.Range("a", "d"), z3.Re("f"), z3.Range("A", "D"), z3.Re("F"))
 E_ = lits("e", "E")
+P_ = lits("p", "P")
+X_ = lits("x", "X")
+B_ = lits("b", "B")
 ASCII = z3.Range("\x00", "\x7f")
 CONT = U(D, z3.Range("a", "z"), z3.Range("A", "Z"), z3.Re("_"), z3.Re("."))
 SIGN = lits("+", "-")
@@ -35,151 +47,152 @@ SIGN = lits("+", "-")
 # integer-suffix: unsigned-suffix and one size suffix in either order, or one of them alone
 SIZE = lits("l", "L", "ll", "LL", "z", "Z", "wb", "WB", "i64", "I64")
 UNS = lits("u", "U")
-INT_SUFFIX = U(UNS, SIZE, z3.Concat(UNS, SIZE), z3.Concat(SIZE, UNS))
-# floating-suffix of C (f l F L) plus the extensions of the statement (d D)
+INT_SUFFIX = U(UNS, SIZE, cat(UNS, SIZE), cat(SIZE, UNS))
+# floating-suffix of C (f l F L) plus the extension of the statement (d D)
 FLOAT_SUFFIX = lits("f", "F", "l", "L", "d", "D")
+OPT_FLOAT_SUFFIX = U(EPS, FLOAT_SUFFIX)
 
 
-def not_in(r):
-    return z3.Intersect(ASCII, z3.Complement(r))
-
-
-def rest_ok(rest, also_no_sign=False):
-    """rest is empty or starts with an ASCII character that cannot continue the constant"""
-    stop = not_in(U(CONT, SIGN) if also_no_sign else CONT)
-    return z3.Or(rest == z3.StringVal(""), z3.InRe(rest, z3.Concat(stop, z3.Full(RS))))
+def rest_lang(no_sign=False):
+    """nothing, or text starting with an ASCII character that cannot continue the constant"""
+    stop = z3.Intersect(ASCII, z3.Complement(U(CONT, SIGN) if no_sign else CONT))
+    return U(EPS, cat(stop, z3.Full(RS)))
 
 
 class Family:
-    def __init__(self, name, pattern, w, constraints, pieces, groups, sample_len=(1, 2, 5)):
-        self.name, self.pattern, self.w = name, pattern, w
-        self.constraints = list(constraints)
-        # None: the pattern must not match at all
-        self.pieces = None if pieces is None else [z3.StringVal(x) if isinstance(x, str) else x for x in pieces]
-        self.groups = groups or {}
-        self.sample_len = sample_len
+    def __init__(self, name, pattern, segments, rest, groups=None, matches=True, known=None):
+        self.name, self.pattern, self.segments, self.rest = name, pattern, segments, rest
+        self.known = known                    # id of a listed known finding this family isolates
+        self.groups = groups or {}            # group -> (first segment, one past the last)
+        self.matches = matches                # False: the pattern must not match any prefix
 
 
-def v(name):
-    return z3.String(name)
-
-
-def cat(*ts):
-    ts = [z3.StringVal(t) if isinstance(t, str) else t for t in ts]
-    return ts[0] if len(ts) == 1 else z3.Concat(*ts)
-
-
-EMPTY = z3.StringVal("")
+def seg(lang, npieces=1, name=""):
+    return Segment(cat(lang) if isinstance(lang, str) else lang, npieces, name)
 
 
 def integer_families():
-    """valid integer constants against INT_LITERAL_PATTERN: one token text = the constant,
-    groups Prefix / Constant / Suffix as the parser's checks expect them"""
-    out = []
+    """valid integer constants against INT_LITERAL_PATTERN: the match ends where the constant
+    ends, and Prefix / Constant / Suffix are the parts the parser's checks expect"""
     P = "INT_LITERAL_PATTERN"
-    rest = v("rest")
-    s0, s1 = v("s0"), v("s1")          # a non-empty suffix, split after its first character
-    suf = cat(s0, s1)
-    suf_ok = [z3.Length(s0) == 1, z3.InRe(suf, INT_SUFFIX)]
+    out = []
 
-    def both(name, prefix_pieces, const, const_cons, prefix_text, ends_in_e=None):
-        """with and without suffix"""
-        c = list(const_cons)
-        if ends_in_e is None:
-            # the constant cannot end in e / E
-            out.append(Family(f"{name}.plain", P, cat(*prefix_pieces, const, rest), c + [rest_ok(rest)],
-                              list(prefix_pieces) + [const], {"Prefix": prefix_text, "Constant": const, "Suffix": EMPTY}))
-            out.append(Family(f"{name}.suffixed", P, cat(*prefix_pieces, const, suf, rest), c + suf_ok + [rest_ok(rest)],
-                              list(prefix_pieces) + [const, s0, s1], {"Prefix": prefix_text, "Constant": const, "Suffix": suf}))
-        else:
-            body, last = ends_in_e
-            # hexadecimal: after a final e / E the pattern takes the look-behind branch of Suffix
-            # (one greedy run, empty when nothing follows); a following sign would belong to the
-            # preprocessing number, so it is not a valid continuation (pp-number rule)
-            out.append(Family(f"{name}.ends_in_e.plain", P, cat(*prefix_pieces, body, last, rest),
-                              c + [z3.InRe(last, E_), rest_ok(rest, also_no_sign=True)],
-                              list(prefix_pieces) + [cat(body, last), EMPTY],
-                              {"Prefix": prefix_text, "Constant": cat(body, last), "Suffix": EMPTY}))
-            out.append(Family(f"{name}.ends_in_e.suffixed", P, cat(*prefix_pieces, body, last, suf, rest),
-                              c + [z3.InRe(last, E_)] + suf_ok + [rest_ok(rest)],
-                              list(prefix_pieces) + [cat(body, last), suf],
-                              {"Prefix": prefix_text, "Constant": cat(body, last), "Suffix": suf}))
-    d = v("d")
-    both("decimal", [], d, [z3.InRe(d, z3.Concat(NZ, z3.Star(D)))], EMPTY)
-    both("zero", [], z3.StringVal("0"), [], EMPTY)
-    o = v("o")
-    both("octal", ["0"], o, [z3.InRe(o, z3.Plus(OCT))], z3.StringVal("0"))
-    x, h = v("x"), v("h")
-    xc = [z3.InRe(x, lits("x", "X"))]
-    both("hexadecimal", ["0", x], h, xc + [z3.InRe(h, z3.Concat(z3.Star(HEXD), HEX_NOT_E))], cat("0", x))
-    hb, hl = v("hb"), v("hl")
-    both("hexadecimal", ["0", x], None, xc + [z3.InRe(hb, z3.Star(HEXD))], cat("0", x), ends_in_e=(hb, hl))
-    b, bd = v("b"), v("bd")
-    both("binary", ["0", b], bd, [z3.InRe(b, lits("b", "B")), z3.InRe(bd, z3.Plus(BIN))], cat("0", b))
+    def both(name, prefix_segs, const_lang):
+        n = len(prefix_segs)
+        g = {"Prefix": (0, n), "Constant": (n, n + 1)}
+        out.append(Family(f"{name}.plain", P, prefix_segs + [seg(const_lang, 1, "digits")], rest_lang(),
+                          dict(g, Suffix=(n + 1, n + 1))))
+        # a suffix is one character of class \\w followed by a run (two pieces of the pattern)
+        out.append(Family(f"{name}.suffixed", P, prefix_segs + [seg(const_lang, 1, "digits"), seg(INT_SUFFIX, 2, "suffix")],
+                          rest_lang(), dict(g, Suffix=(n + 1, n + 2))))
+    both("decimal", [], cat(NZ, z3.Star(D)))
+    both("zero", [], z3.Re("0"))
+    both("octal", [seg("0", 1, "0")], z3.Plus(OCT))
+    hexp = [seg("0", 1, "0"), seg(X_, 1, "x")]
+    both("hexadecimal", hexp, cat(z3.Star(HEXD), HEX_NOT_E))
+    # after a final e / E the pattern takes the look-behind branch of Suffix: one greedy run
+    # (empty when nothing follows).  A sign right after the e would belong to the
+    # preprocessing number (pp-number rule), so it is not a valid continuation there.
+    he = cat(z3.Star(HEXD), E_)
+    g = {"Prefix": (0, 2), "Constant": (2, 3)}
+    out.append(Family("hexadecimal.ends_in_e.plain", P, hexp + [seg(he, 1, "digits"), seg(EPS, 1, "no suffix")],
+                      rest_lang(no_sign=True), dict(g, Suffix=(3, 4))))
+    out.append(Family("hexadecimal.ends_in_e.suffixed", P, hexp + [seg(he, 1, "digits"), seg(INT_SUFFIX, 1, "suffix")],
+                      rest_lang(no_sign=True), dict(g, Suffix=(3, 4))))
+    # ... and the same constants followed by a sign (0xEu+1): two tokens in C, since the sign
+    # does not follow the e directly.  Isolated because it is known finding K9.
+    out.append(Family("hexadecimal.ends_in_e.suffixed.then_sign", P, hexp + [seg(he, 1, "digits"), seg(INT_SUFFIX, 1, "suffix")],
+                      cat(SIGN, z3.Full(RS)), dict(g, Suffix=(3, 4)), known="K9"))
+    both("binary", [seg("0", 1, "0"), seg(B_, 1, "b")], z3.Plus(BIN))
     return out
+
+
+FLOATS = ("FLOAT_EXPONENT_LITERAL_PATTERN", "FLOAT_FRACTIONAL_LITERAL_PATTERN", "FLOAT_HEXADECIMAL_LITERAL_PATTERN")
+
+
+def short(p):
+    return p.split("_")[1].lower()
 
 
 def float_reject_families():
     """valid integer constants are not taken by the float parser: the exponent and fractional
-    patterns do not match them, and the hexadecimal pattern matches a hexadecimal integer with
-    neither '.' nor exponent (the parser then returns None: `# Hexadecimal Integer`)"""
+    patterns match no prefix of them (a hexadecimal integer is matched by the hexadecimal
+    pattern with neither '.' nor exponent: the parser returns None there, `# Hexadecimal
+    Integer`, see hex_integer_family)"""
     out = []
-    rest = v("rest")
-    s0, s1 = v("s0"), v("s1")
-    suf = cat(s0, s1)
-    anysuf = z3.Or(suf == EMPTY, z3.And(z3.Length(s0) == 1, z3.InRe(suf, INT_SUFFIX)))
-    d = v("d")
-    for pat in ("FLOAT_EXPONENT_LITERAL_PATTERN", "FLOAT_FRACTIONAL_LITERAL_PATTERN", "FLOAT_HEXADECIMAL_LITERAL_PATTERN"):
-        out.append(Family(f"decimal_or_octal_integer.not_a_float[{pat.split('_')[1].lower()}]", pat,
-                          cat(d, suf, rest), [z3.InRe(d, z3.Plus(D)), anysuf, rest_ok(rest)], None, None))
-    b, bd = v("b"), v("bd")
-    for pat in ("FLOAT_EXPONENT_LITERAL_PATTERN", "FLOAT_FRACTIONAL_LITERAL_PATTERN", "FLOAT_HEXADECIMAL_LITERAL_PATTERN"):
-        out.append(Family(f"binary_integer.not_a_float[{pat.split('_')[1].lower()}]", pat,
-                          cat("0", b, bd, suf, rest),
-                          [z3.InRe(b, lits("b", "B")), z3.InRe(bd, z3.Plus(BIN)), anysuf, rest_ok(rest)], None, None))
-    x, h = v("x"), v("h")
-    for pat in ("FLOAT_EXPONENT_LITERAL_PATTERN", "FLOAT_FRACTIONAL_LITERAL_PATTERN"):
-        out.append(Family(f"hexadecimal_integer.not_a_float[{pat.split('_')[1].lower()}]", pat,
-                          cat("0", x, h, suf, rest),
-                          [z3.InRe(x, lits("x", "X")), z3.InRe(h, z3.Plus(HEXD)), anysuf, rest_ok(rest)], None, None))
+    anysuf = U(EPS, INT_SUFFIX)
+    for pat in FLOATS:
+        out.append(Family(f"decimal_or_octal_integer.not_a_float[{short(pat)}]", pat,
+                          [seg(z3.Plus(D)), seg(anysuf)], rest_lang(), matches=False))
+        out.append(Family(f"binary_integer.not_a_float[{short(pat)}]", pat,
+                          [seg("0"), seg(B_), seg(z3.Plus(BIN)), seg(anysuf)], rest_lang(), matches=False))
+    for pat in FLOATS[:2]:
+        out.append(Family(f"hexadecimal_integer.not_a_float[{short(pat)}]", pat,
+                          [seg("0"), seg(X_), seg(z3.Plus(HEXD)), seg(anysuf)], rest_lang(), matches=False))
     return out
 
 
 def float_families():
-    """valid floating constants: which of the three patterns takes them (they are tried in the
-    order exponent, fractional, hexadecimal) and with which groups"""
+    """valid decimal floating constants: which pattern takes them (they are tried in the order
+    exponent, fractional, hexadecimal) and with which groups"""
     out = []
-    rest = v("rest")
-    fs = v("fs")                      # optional floating-suffix
-    fs_ok = z3.Or(fs == EMPTY, z3.InRe(fs, FLOAT_SUFFIX))
-    e, sg, ed = v("e"), v("sg"), v("ed")
-    exp_cons = [z3.InRe(e, E_), z3.InRe(ed, z3.Plus(D))]
-    d1 = v("d1")
-    # digit-sequence exponent-part suffix?           e.g. 1e5, 12E+3f
-    X = "FLOAT_EXPONENT_LITERAL_PATTERN"
-    out.append(Family("decimal_exponent.signed", X, cat(d1, e, sg, ed, fs, rest),
-                      [z3.InRe(d1, z3.Plus(D)), z3.InRe(sg, SIGN), fs_ok, rest_ok(rest)] + exp_cons,
-                      [d1, e, sg, ed, fs], {"Constant": d1, "Exponent": cat(e, sg, ed), "Suffix": fs}))
-    out.append(Family("decimal_exponent.unsigned", X, cat(d1, e, ed, fs, rest),
-                      [z3.InRe(d1, z3.Plus(D)), fs_ok, rest_ok(rest)] + exp_cons,
-                      [d1, e, ed, fs], {"Constant": d1, "Exponent": cat(e, ed), "Suffix": fs}))
-    # fractional-constant exponent-part? suffix?      e.g. 1.5, .5e-3, 1.f  -- not taken by the exponent pattern
-    ip, fp = v("ip"), v("fp")
-    frac_forms = [
-        ("int.frac", cat(ip, ".", fp), [z3.InRe(ip, z3.Plus(D)), z3.InRe(fp, z3.Plus(D))], [ip, z3.StringVal("."), fp]),
-        (".frac", cat(".", fp), [z3.InRe(fp, z3.Plus(D))], [z3.StringVal("."), fp]),
-        ("int.", cat(ip, "."), [z3.InRe(ip, z3.Plus(D))], [ip, z3.StringVal(".")]),
-    ]
-    F = "FLOAT_FRACTIONAL_LITERAL_PATTERN"
-    for nm, const, cons, cpieces in frac_forms:
-        out.append(Family(f"fractional[{nm}].not_exponent_pattern", X, cat(const, fs, rest),
-                          cons + [fs_ok, rest_ok(rest)], None, None))
-        out.append(Family(f"fractional[{nm}].plain", F, cat(const, fs, rest), cons + [fs_ok, rest_ok(rest)],
-                          cpieces + [fs], {"Constant": const, "Exponent": EMPTY, "Suffix": fs}))
-        out.append(Family(f"fractional[{nm}].exponent_signed", F, cat(const, e, sg, ed, fs, rest),
-                          cons + exp_cons + [z3.InRe(sg, SIGN), fs_ok, rest_ok(rest)],
-                          cpieces + [e, sg, ed, fs], {"Constant": const, "Exponent": cat(e, sg, ed), "Suffix": fs}))
-        out.append(Family(f"fractional[{nm}].exponent_unsigned", F, cat(const, e, ed, fs, rest),
-                          cons + exp_cons + [fs_ok, rest_ok(rest)],
-                          cpieces + [e, ed, fs], {"Constant": const, "Exponent": cat(e, ed), "Suffix": fs}))
+    X, F = FLOATS[0], FLOATS[1]
+    fs = seg(OPT_FLOAT_SUFFIX, 1, "suffix")
+    e, sg, ed = seg(E_, 1, "e"), seg(SIGN, 1, "sign"), seg(z3.Plus(D), 1, "exponent digits")
+    ds = seg(z3.Plus(D), 1, "digits")
+    # digit-sequence exponent-part suffix?            1e5  12E+3f
+    out.append(Family("decimal_exponent.signed", X, [ds, e, sg, ed, fs], rest_lang(),
+                      {"Constant": (0, 1), "Exponent": (1, 4), "Suffix": (4, 5)}))
+    out.append(Family("decimal_exponent.unsigned", X, [ds, e, ed, fs], rest_lang(),
+                      {"Constant": (0, 1), "Exponent": (1, 3), "Suffix": (3, 4)}))
+    # fractional-constant exponent-part? suffix?       1.5  .5e-3  1.f
+    dot = seg(".", 1, ".")
+    forms = [("int.frac", [seg(z3.Plus(D), 1, "integer part"), dot, seg(z3.Plus(D), 1, "fraction")]),
+             (".frac", [dot, seg(z3.Plus(D), 1, "fraction")]),
+             ("int.", [seg(z3.Plus(D), 1, "integer part"), dot])]
+    for nm, cs in forms:
+        n = len(cs)
+        out.append(Family(f"fractional[{nm}].not_the_exponent_pattern", X, cs + [fs], rest_lang(), matches=False))
+        out.append(Family(f"fractional[{nm}].plain", F, cs + [fs], rest_lang(),
+                          {"Constant": (0, n), "Exponent": (n, n), "Suffix": (n, n + 1)}))
+        out.append(Family(f"fractional[{nm}].exponent_signed", F, cs + [e, sg, ed, fs], rest_lang(),
+                          {"Constant": (0, n), "Exponent": (n, n + 3), "Suffix": (n + 3, n + 4)}))
+        out.append(Family(f"fractional[{nm}].exponent_unsigned", F, cs + [e, ed, fs], rest_lang(),
+                          {"Constant": (0, n), "Exponent": (n, n + 2), "Suffix": (n + 2, n + 3)}))
     return out
+
+
+def hex_float_families():
+    """hexadecimal floating constants (6.4.4.2) against the hexadecimal pattern.  The pattern
+    collects the exponent digits with the *hexadecimal* digit class, so a suffix f / F / d / D
+    ends up inside the Exponent group; the statement asks for one token spanning the constant,
+    so the segments are cut where the pattern's pieces end and only Constant is claimed."""
+    out = []
+    H = FLOATS[2]
+    zero, x = seg("0", 1, "0"), seg(X_, 1, "x")
+    hx = seg(z3.Plus(HEXD), 1, "hex digits")
+    dot = seg(".", 1, ".")
+    forms = [("int.frac", [hx, dot, seg(z3.Plus(HEXD), 1, "fraction")]),
+             ("int.", [hx, dot, seg(EPS, 1, "empty fraction")]),
+             (".frac", [dot, seg(z3.Plus(HEXD), 1, "fraction")]),
+             ("int", [hx])]
+    p_, sg = seg(P_, 1, "p"), seg(SIGN, 1, "sign")
+    tails = [("absorbed_suffix", seg(cat(z3.Plus(D), lits("f", "F", "d", "D")), 1, "exponent digits + f/d"), seg(EPS, 1, "")),
+             ("l_or_no_suffix", seg(z3.Plus(D), 1, "exponent digits"), seg(U(EPS, lits("l", "L")), 1, "suffix"))]
+    for nm, cs in forms:
+        n = 2 + len(cs)
+        for tn, ed, sfx in tails:
+            out.append(Family(f"hex_float[{nm}].signed.{tn}", H, [zero, x] + cs + [p_, sg, ed, sfx], rest_lang(),
+                              {"Constant": (0, n)}))
+            out.append(Family(f"hex_float[{nm}].unsigned.{tn}", H, [zero, x] + cs + [p_, ed, sfx], rest_lang(),
+                              {"Constant": (0, n)}))
+    # a hexadecimal *integer* is matched too, with neither '.' nor exponent: the parser then
+    # answers None (`# Hexadecimal Integer`) and the integer parser takes over
+    out.append(Family("hexadecimal_integer.matched_without_dot_or_exponent", H,
+                      [zero, x, hx, seg(U(EPS, INT_SUFFIX), 1, "integer suffix")], rest_lang(),
+                      {"Constant": (0, 3), "Exponent": (3, 3), "Suffix": (3, 4)}))
+    return out
+
+
+def all_families():
+    return integer_families() + float_reject_families() + float_families() + hex_float_families()
